@@ -258,19 +258,16 @@ func ruleReservedUserHeadroom(c *Ctx) {
 	calls := p.callsIn(fn, "objects.Application.tryNode", "objects.Application.tryNodesNoReserve")
 	for _, call := range calls {
 		st := p.StateAt(fn, call)
-		askArg := call.Args[0]
-		if p.IsCall(call, "objects.Application.tryNode") {
-			askArg = call.Args[1]
+		askArg := p.argOfType(call, "objects.Allocation")
+		if askArg == nil {
+			c.Check("C05.a2", "user headroom before "+shortFn(p.CalleeName(call))+" (reserved)", call, false, "%s is not called with exactly one allocation", p.CalleeName(call))
+			continue
 		}
 		askT := T(askArg, st)
+		// checkHeadRooms(...) == true implies userHeadroom.FitInMaxUndef(res(ask)) with the parameter bound to the argument
 		ok := p.Holds(st, p.CallAtom(true, func(cl *ast.CallExpr, a Atom) bool {
-			if len(cl.Args) != 3 || !p.Same(a.term(cl.Args[0]), askT) {
-				return false
-			}
-			d := p.DefOf(a.term(cl.Args[1]))
-			hc, isC := unparen(d.E).(*ast.CallExpr)
-			return isC && p.IsCall(hc, "ugm.Manager.Headroom")
-		}, "objects.Application.checkHeadRooms"))
+			return Recv(cl) != nil && len(cl.Args) == 1 && p.IsResOf(a.term(cl.Args[0]), askT) && p.reaches(a.term(Recv(cl)), "ugm.Manager.Headroom")
+		}, "resources.Resource.FitInMaxUndef"))
 		c.Check("C05.a2", "user headroom before "+shortFn(p.CalleeName(call))+" (reserved)", call, ok, "%s reached without checkHeadRooms(ask, <Manager.Headroom>, headRoom) on this ask; facts: %v", p.CalleeName(call), p.FactStrings(st))
 	}
 	c.Floor("C05.a2", "bind attempts in tryReservedAllocate", len(calls), 2)
@@ -293,7 +290,7 @@ func ruleConfiguredLimitStored(c *Ctx) {
 			continue
 		}
 		for _, w := range p.FieldWrites(f) {
-			if w.Fn != fn {
+			if !p.inFn(w.Fn, fn) {
 				continue
 			}
 			n++
